@@ -62,6 +62,10 @@ var linModel = porcupine.Model{
 			return true, *in.init
 		}
 		st2, want, _ := step(state.(kstate), in.op)
+		if in.op.Kind == "GetExpiration" {
+			// lifetimes are not modelled in the concurrent part: found / not found only
+			return output.(Res).errClass() == want.errClass(), st2
+		}
 		ok, _ := sameExact(in.op, output.(Res), concWant(in.op, want))
 		return ok, st2
 	},
@@ -283,7 +287,50 @@ var concFamilies = map[string][]string{
 	"mixed": {"Set", "Get", "Delete", "Exists", "SetList", "GetList", "AppendToList", "RemoveFromList", "SetHash", "GetHash", "GetAllHash",
 		"DeleteHash", "Incr", "IncrBy", "SetNX", "CompareAndSwap", "SetExpiration", "CleanupExpired"},
 }
-var concFamilyNames = []string{"counter", "setnx", "cas", "list", "hash", "mixed"}
+var concFamilyNames = []string{"counter", "setnx", "cas", "list", "hash", "mixed", "revive", "revive"}
+
+// family "revive": every key starts as an expired, unswept hash/counter; at step i all goroutines
+// call on the same key: readers that lazily delete an expired item (GetHash, GetAllHash,
+// GetExpiration) against writers that restart it in place (SetHash, Incr, IncrBy); a second pass
+// looks at what is left.
+var (
+	reviveKeys    = []string{"x", "y", "z"}
+	reviveWriters = []string{"SetHash", "SetHash", "IncrBy", "Incr"}
+	reviveReaders = []string{"GetHash", "GetAllHash", "GetExpiration"}
+	reviveLater   = []string{"GetHash", "GetAllHash", "Get", "Exists", "GetExpiration", "SetHash", "Incr"}
+)
+
+func genRevive(t *rapid.T, c *Case) {
+	for _, k := range reviveKeys {
+		c.Pre = append(c.Pre, genConcOp(t, []string{"SetHash", "SetHash", "Incr", "IncrBy"}, []string{k}, true))
+		c.Pre = append(c.Pre, Op{Kind: "SetExpiration", Key: k, TTL: ttlShort})
+	}
+	c.Pre = append(c.Pre, Op{Kind: "sleep"})
+	readers := reviveReaders
+	if !hashReadsSafe {
+		readers = []string{"GetExpiration"}
+	}
+	ng := rapid.IntRange(2, 4).Draw(t, "goroutines")
+	firstWriter := rapid.IntRange(0, 1).Draw(t, "firstWriter")
+	for g := 0; g < ng; g++ {
+		var prog []Op
+		for i := 0; i < 2*len(reviveKeys); i++ {
+			k := []string{reviveKeys[i%len(reviveKeys)]}
+			kinds := reviveLater
+			if i < len(reviveKeys) {
+				kinds = readers
+				if g%2 == firstWriter {
+					kinds = reviveWriters
+				}
+			}
+			if !hashReadsSafe && i >= len(reviveKeys) {
+				kinds = []string{"Get", "Exists", "GetExpiration", "SetHash", "Incr"}
+			}
+			prog = append(prog, genConcOp(t, kinds, k, true))
+		}
+		c.Progs = append(c.Progs, prog)
+	}
+}
 
 // small pools so that concurrent callers collide on values
 var (
@@ -340,6 +387,10 @@ func TestConcurrentLinearizable(t *testing.T) {
 			keys = []string{"x", "y"}
 		}
 		c := Case{Part: "conc", Family: fam}
+		if fam == "revive" {
+			genRevive(t, &c)
+			keys = nil
+		}
 		// set-up: optionally a live value or an expired, unswept item per key
 		short := false
 		for _, k := range keys {
@@ -364,6 +415,9 @@ func TestConcurrentLinearizable(t *testing.T) {
 			c.Pre = append(c.Pre, Op{Kind: "sleep"})
 		}
 		ng := rapid.IntRange(3, 4).Draw(t, "goroutines")
+		if fam == "revive" {
+			ng = 0
+		}
 		for g := 0; g < ng; g++ {
 			nops := rapid.IntRange(2, 6).Draw(t, "nops")
 			var prog []Op
